@@ -20,7 +20,7 @@
    configuration), C12_arity_refuted_pinned (deviation D08, repaired). *)
 From Coq Require Import ZArith List String PrimFloat FloatOps.
 From Verif Require Import Base.Result Base.Str Base.Sexp Base.Float Model.NumExpr Spec.Arith
-  Proofs.C12_Eval Proofs.C12_Cmp Proofs.C12_Print Proofs.C12_Main.
+  Proofs.C12_Eval Proofs.C12_Cmp Proofs.C12_CmpAt Proofs.C12_Multi Proofs.C12_Print Proofs.C12_Main.
 Import ListNotations.
 Open Scope string_scope.
 
@@ -77,6 +77,18 @@ Theorem C12_cmp_fixed :
   compare_op (cfg_fixed eps digits) (cmp_name c) x y = Ok (spec_cmp eps c x y).
 Proof. exact C12_cmp_fixed_lemma. Qed.
 
+(* The same WITHOUT universally quantified hypotheses: the three IEEE facts cannot be proved in Coq 8.16.1 without
+   importing axioms (FloatAxioms declares them with Axiom; float has no eliminator), but at closed values the
+   instances the proof uses are decided by kernel computation: ieee_ok_at eps x y is that finite check (a boolean;
+   evaluated by the correspondence on the operands of every comparison case of every run, and on one value of each
+   class - subnormals, smallest normal, 1e308, largest finite, -0.0 - in Proofs/C12_CmpAt.v: ieee_ok_at_samples). *)
+Theorem C12_cmp_fixed_at : forall (eps : float) (digits : nat) (c : cmp) (x y : float),
+  ieee_ok_at eps x y = true ->
+  f_is_finite x = true -> f_is_finite y = true -> PrimFloat.leb 0%float eps = true ->
+  PrimFloat.ltb eps 0%float = false ->
+  compare_op (cfg_fixed eps digits) (cmp_name c) x y = Ok (spec_cmp eps c x y).
+Proof. exact C12_cmp_fixed_at_lemma. Qed.
+
 (* Assignments: assign / increase / decrease return the target with v, old+v, old-v (old = the state's value,
    0 when missing; v = the calculated right-hand side) ... *)
 Theorem C12_assign : forall (cfg : ncfg) (st : fluents) (a : asg) (f : nfun) (rhs : ntree),
@@ -88,6 +100,27 @@ Proof. exact C12_assign_lemma. Qed.
 Theorem C12_assign_frame : forall (st : fluents) (k : string) (v : float) (k' : string),
   val_of (write_back st (EvAssign k v)) k' = if String.eqb k' k then v else val_of st k'.
 Proof. exact C12_assign_frame_lemma. Qed.
+
+(* SEVERAL numeric effects of one action (GroundedEffect.apply: all evaluated on the previous state, then stored): for
+   ANY list of assign/increase/decrease effects with pairwise distinct targets whose right-hand sides are defined in
+   st, every target ends up with v / old+v / old-v where v and old are read in st - also when the right-hand sides
+   mention other targets or their own - and every other key of the state being built is untouched ... *)
+Theorem C12_assign_simultaneous : forall (cfg : ncfg) (st cur : fluents) (effs : list neff),
+  NoDup (map neff_key effs) -> rhs_defined st effs ->
+  exists st', apply_effects cfg st cur (map neff_tree effs) = Ok st' /\
+              forall k, val_of st' k = match find_eff k effs with
+                                       | Some e => match neff_value st e with Ok v => v | Err _ => 0%float end
+                                       | None => val_of cur k
+                                       end.
+Proof. exact C12_assign_simultaneous_lemma. Qed.
+
+(* ... whatever the order in which the effects are visited (the iteration order of the Python set). *)
+Theorem C12_assign_order : forall (cfg : ncfg) (st cur : fluents) (effs effs' : list neff),
+  NoDup (map neff_key effs) -> rhs_defined st effs -> Permutation.Permutation effs effs' ->
+  exists s1 s2, apply_effects cfg st cur (map neff_tree effs) = Ok s1 /\
+                apply_effects cfg st cur (map neff_tree effs') = Ok s2 /\
+                forall k, val_of s1 k = val_of s2 k.
+Proof. exact C12_assign_order_lemma. Qed.
 
 (* Printing, value: the numeral printed for ANY constant v with ANY number of digits reads back EXACTLY (as a
    decimal, in Z) to within half a unit of the last printed digit of v's exact binary value; integers are
@@ -111,7 +144,10 @@ Print Assumptions C12_cmp_abs.
 Print Assumptions C12_cmp_strict.
 Print Assumptions C12_cmp_refuted_pinned.
 Print Assumptions C12_cmp_fixed.
+Print Assumptions C12_cmp_fixed_at.
 Print Assumptions C12_assign.
+Print Assumptions C12_assign_simultaneous.
+Print Assumptions C12_assign_order.
 Print Assumptions C12_assign_frame.
 Print Assumptions C12_print_value.
 Print Assumptions C12_print_structure.
